@@ -478,6 +478,14 @@ func checkC01(c *Ctx, r *Report) {
 
 	// ---- (4) driver order
 	checkDriverOrder(c, r, found)
+
+	// ---- (5) "every command subsequently sent on that session passes the BMC's integrity check
+	// and decryption": the statements of C03 (every in-session packet is built, signed, padded and
+	// encrypted as specified, from clean hash state) and C09 (session sequence numbers belong to
+	// the session, start at 1 and advance by one per datagram — a BMC's sliding window drops
+	// anything else) are clauses of this property; their rule sets are run as part of it
+	r.shareWhole(c, checkC03)
+	r.shareWhole(c, checkC09)
 }
 
 func keysOf2(m map[[2]string]bool) [][2]string {
